@@ -330,7 +330,13 @@ def extract_bytes_argument(data: Bytes, arg_idx: int) -> bytes:
 def extract_string_argument(data: Bytes, arg_idx: int) -> Bytes:
     """Extracts idx-th argument of string from data"""
     string_bytes = extract_bytes_argument(data, arg_idx)
-    return string_bytes.decode("utf-8") if is_concrete(string_bytes) else string_bytes
+
+    # note: a solidity string can hold any bytes, not only valid utf-8
+    return (
+        string_bytes.decode("utf-8", errors="replace")
+        if is_concrete(string_bytes)
+        else string_bytes
+    )
 
 
 def extract_bytes(data: Bytes, offset: int, size_bytes: int) -> Bytes:
